@@ -96,7 +96,21 @@ func (r *ring) currentHosts() map[string]*HostInfo {
 
 func (r *ring) addOrUpdate(host *HostInfo) *HostInfo {
 	if existingHost, ok := r.addHostIfMissing(host); ok {
+		oldIP := existingHost.nodeToNodeAddress().String()
 		existingHost.update(host)
+		// update may have filled in broadcast_address, which changes the node-to-node address the host
+		// is indexed by: move the hostIPToUUID entry, a stale one would outlive the host
+		if newIP := existingHost.nodeToNodeAddress().String(); newIP != oldIP {
+			hostID := existingHost.HostID()
+			r.mu.Lock()
+			if r.hosts[hostID] == existingHost {
+				if r.hostIPToUUID[oldIP] == hostID {
+					delete(r.hostIPToUUID, oldIP)
+				}
+				r.hostIPToUUID[newIP] = hostID
+			}
+			r.mu.Unlock()
+		}
 		host = existingHost
 	}
 	return host
